@@ -179,9 +179,6 @@ Print Assumptions C01_let_binds_values_refuted.
 Theorem C01_mapcar_values_refuted : fst (runM 60 w_mapcar_values) <> fst (runS 60 w_mapcar_values) /\ guardb 60 w_mapcar_values = false.
 Proof. exact mapcar_values_refuted. Qed.
 Print Assumptions C01_mapcar_values_refuted.
-Theorem C01_setq_values_refuted : fst (runM 60 w_setq_values) <> fst (runS 60 w_setq_values) /\ guardb 60 w_setq_values = false.
-Proof. exact setq_values_refuted. Qed.
-Print Assumptions C01_setq_values_refuted.
 Theorem C01_too_few_arguments_refuted :
   fst (runM 60 w_short_args) = Ok (VList [VInt 1; VSym "x"]) /\ fst (runS 60 w_short_args) = Er EArity /\ guardb 60 w_short_args = false.
 Proof. exact too_few_arguments_refuted. Qed.
@@ -241,3 +238,16 @@ Theorem C01_or_takes_primary_value :
   forallb (fun m => match fst (run m 60 w_or_values) with Ok (VList [VInt 5; VNil]) => true | _ => false end) [Slip; Ref; Chk] = true.
 Proof. exact or_takes_primary_value. Qed.
 Print Assumptions C01_or_takes_primary_value.
+
+(* setq and cond (repo_fixes/C01-15, C01-16): (setq x e) stores and returns the primary value of e, in every mode; the
+   former witnesses yield (1 nil). *)
+Theorem C01_setq_returns_stored : forall m ev st sc x e v st1 st2,
+  ev st sc e = (Ok v, st1) -> assign m st1 sc x (primary v) = (Ok tt, st2) ->
+  ev_setq m ev st sc [(x, e)] VNil = (Ok (primary v), st2).
+Proof. exact setq_returns_stored. Qed.
+Print Assumptions C01_setq_returns_stored.
+Theorem C01_setq_cond_single_value :
+  forallb (fun m => match fst (run m 60 w_setq_values), fst (run m 60 w_cond_values) with
+                    | Ok (VList [VInt 1; VNil]), Ok (VList [VInt 1; VNil]) => true | _, _ => false end) [Slip; Ref; Chk] = true.
+Proof. exact setq_cond_single_value. Qed.
+Print Assumptions C01_setq_cond_single_value.
